@@ -109,11 +109,8 @@ ASMJIT_FAVOR_SIZE Error FuncFrame::init(const FuncDetail& func) noexcept {
   _sa_reg_id = uint8_t(Reg::kIdBad);
 
   uint32_t natural_stack_alignment = func.call_conv().natural_stack_alignment();
-  uint32_t min_dynamic_alignment = Support::max<uint32_t>(natural_stack_alignment, 16);
-
-  if (min_dynamic_alignment == natural_stack_alignment) {
-    min_dynamic_alignment <<= 1;
-  }
+  // Any alignment greater than the natural stack alignment must be established dynamically.
+  uint32_t min_dynamic_alignment = natural_stack_alignment << 1;
 
   _natural_stack_alignment = uint8_t(natural_stack_alignment);
   _min_dynamic_alignment = uint8_t(min_dynamic_alignment);
